@@ -1910,3 +1910,86 @@ func ruleFindIndex(c *Ctx) {
 		c.R.Hold("R-IDX/find", "-", "", "search results are tested before they are used as bounds", fmt.Sprintf("%d search results bound to locals, none reaches an index or slice bound untested", n), n > 0)
 	}
 }
+
+// ---------- R-CTX/afterfunc: a context callback registered for the duration of an operation is withdrawn when the operation succeeds ----------
+
+// ruleAfterFunc: context.AfterFunc(ctx, f) keeps f armed until ctx ends - long
+// after the function that registered it has returned, if nobody calls the stop
+// function. Where the callback exists to abort the operation in progress (it
+// closes the stream being dialled), leaving it armed means a later, perfectly
+// ordinary cancel of the caller's context (defer cancel()) closes the
+// connection that was handed out. So the stop result is bound, and every path
+// from the registration to a return that reports success (a nil error) calls it.
+func ruleAfterFunc(c *Ctx) {
+	p := c.P
+	n, bad := 0, false
+	for _, f := range p.Funcs {
+		if !notTesting(p, f) {
+			continue
+		}
+		info := f.Pkg.TypesInfo
+		g := p.Graph(f)
+		for _, m := range g.Nodes {
+			if m.Ast == nil {
+				continue
+			}
+			for _, call := range callsIn(m.Ast) {
+				if p.CalleeName(f, call) != "context.AfterFunc" {
+					continue
+				}
+				n++
+				construct := "context.AfterFunc(" + exprStr(call.Args[0]) + ", ...) is stopped on success"
+				var stopV *types.Var
+				if as, ok := m.Ast.(*ast.AssignStmt); ok && len(as.Lhs) == 1 && len(as.Rhs) == 1 && ast.Unparen(as.Rhs[0]) == ast.Expr(call) {
+					stopV, _ = identObj(info, as.Lhs[0]).(*types.Var)
+				}
+				if stopV == nil {
+					bad = true
+					c.R.Violate("R-CTX/afterfunc", p.Pos(call), f.Name, construct, "the stop function of context.AfterFunc is discarded: the callback stays armed after this function has returned and fires when the caller's context ends, on whatever the operation handed out", nil)
+					continue
+				}
+				stops := func(x *Node) bool {
+					if x.Ast == nil {
+						return false
+					}
+					hit := false
+					ast.Inspect(x.Ast, func(y ast.Node) bool {
+						if _, isLit := y.(*ast.FuncLit); isLit {
+							// a deferred closure that calls stop counts
+						}
+						if cc, ok := y.(*ast.CallExpr); ok && identObj(info, cc.Fun) == types.Object(stopV) {
+							hit = true
+						}
+						return true
+					})
+					return hit
+				}
+				var starts []*Node
+				for _, e := range m.Succs {
+					starts = append(starts, e.To)
+				}
+				seen := g.Reach(starts, stops, nil)
+				leak := false
+				for x := range seen {
+					rs, isR := x.Ast.(*ast.ReturnStmt)
+					if !isR || len(rs.Results) == 0 {
+						continue
+					}
+					last := rs.Results[len(rs.Results)-1]
+					if isErrorType(info.TypeOf(last)) && isNilIdent(info, last) {
+						leak = true
+						c.R.Violate("R-CTX/afterfunc", p.Pos(rs), f.Name, construct, "this return reports success while the callback registered with context.AfterFunc is still armed: when the caller's context ends later (the usual defer cancel()) the callback runs on the connection that was just handed out", nil)
+					}
+				}
+				if leak {
+					bad = true
+				} else {
+					c.R.Hold("R-CTX/afterfunc", p.Pos(call), f.Name, construct, "every path to a successful return calls the stop function", true)
+				}
+			}
+		}
+	}
+	if n == 0 && !bad {
+		c.R.Hold("R-CTX/afterfunc", "", "", "context callbacks", "no context.AfterFunc in the module", false)
+	}
+}
